@@ -206,6 +206,11 @@ def run_c12(tier, seed):
             got = np.asarray(op.operator)
             cmp("dispatch", "Composite.BS", got, OT.beamsplitter(d, d, eta), {"eta": eta, "dim": d}, 1e-8)
             cmp("unitary", "Composite.BS", got @ got.conj().T, np.eye(d * d), {"eta": eta, "dim": d, "identity": "unitary"}, 1e-8)
+    for d1, d2 in ([(2, 3), (3, 2), (2, 4), (4, 3)] if q else [(a_, b_) for a_ in range(1, 6) for b_ in range(1, 6) if a_ != b_]):
+        for eta in angles[2:7]:
+            op = E.Operation(Cc.NonPolarizingBeamSplitter, eta=eta)
+            op.dimensions = [d1, d2]
+            cmp("dispatch", "Composite.BS", op.operator, OT.beamsplitter(d1, d2, eta), {"eta": eta, "dims": [d1, d2]}, 1e-8)
     return C.finish(tier, seed, "exploration",
                     "complete enumeration of: every constructor of _math/ops.py and every operation type via Operation(...).operator, "
                     f"angles {angles}, alpha {[str(a) for a in alphas]}, zeta {[str(z) for z in zetas]}, cut-offs {cutoffs}; "
@@ -429,6 +434,28 @@ def run_c19(tier, seed):
                         C.bad("sym", "overlap_integral", "asymmetric", f"{v!r} vs swapped {vswap!r}", case)
                     if not (-1e-9 <= v <= 1 + 1e-9):
                         C.bad("range", "overlap_integral", "out-of-range", f"{v!r}", case)
+    # envelopes that share one profile object (the library default profile, or one instance passed twice)
+    for s1 in sigmas:
+        shared = TemporalProfile.Gaussian.with_params(mu=0, sigma=s1)
+        for dl in delays:
+            for mode in ("shared-instance", "self"):
+                e1 = E.Envelope(temporal_profile=shared)
+                e2 = E.Envelope(temporal_profile=shared) if mode == "shared-instance" else e1
+                case = {"sigma": s1, "delay": dl * s1, "mode": mode}
+                C.case(tuple(case.values()))
+                v = float(e1.overlap_integral(e2, dl * s1))
+                want = closed(s1, s1, dl * s1)
+                if not math.isfinite(v) or abs(v - want) > 1e-6 * max(want, 1e-12) + 1e-9:
+                    C.bad("gauss" if dl else "identity", "overlap_integral", "mismatch", f"{mode}: got {v!r}, closed form {want!r}", case)
+    sd = 42.45e-15
+    for dl in delays:
+        e1, e2 = E.Envelope(), E.Envelope()
+        case = {"default-profile": True, "delay": dl * sd}
+        C.case(tuple(case.values()))
+        v = float(e1.overlap_integral(e2, dl * sd))
+        want = closed(sd, sd, dl * sd)
+        if not math.isfinite(v) or abs(v - want) > 1e-6 * max(want, 1e-12) + 1e-9:
+            C.bad("gauss" if dl else "identity", "overlap_integral", "mismatch", f"default profile: got {v!r}, closed form {want!r}", case)
     return C.finish(tier, seed, "exploration",
                     f"complete enumeration of sigma {sigmas} x width ratio {ratios} x centre offsets {offs} (in sigma) x delays {delays} (in sigma), "
                     "both argument orders; oracle = analytic Gaussian overlap sqrt(2 s1 s2/(s1^2+s2^2)) exp(-d^2/(2(s1^2+s2^2)))", t0)
